@@ -481,3 +481,34 @@ def twins_c16_memo(cl, c):
 
 def rel_none(cl, tl, rel, ra, rb):
     return None
+
+
+def twins_c12(cl, c):
+    """C12 does not exempt Memoize: in the domain where Memoize must not change the outcome (C06: pure blocks, no labels,
+    no state, no throw/recover; here also no left recursion and no budget) the failure REPORT must be the same too"""
+    if c["o"] or c["maxExpr"] != 0 or c["l"] or not pure_domain(cl) or has_label_args(cl):
+        return []
+    t = cl.split(" ")
+    t[6] = "0" if t[6] == "1" else "1"
+    return [(twin_id(" ".join(t), 4), "memoize-report")]
+
+
+def _nomatch_only(r):
+    """(offset, set of recorded expectations) when the parse failed with the synthesised message as its only error"""
+    if r["kind"] != "ret" or len(r["errs"]) != 1 or ": no match found, expected: " not in r["errs"][0] and not r["errs"][0].endswith("no match found"):
+        return None
+    return (r["mf"][0], frozenset(r["expected"]))
+
+
+def rel_c12(cl, tl, rel, ra, rb):
+    c = core.parse_case_head(cl)
+    memo, plain = (ra, rb) if c["memoize"] else (rb, ra)
+    m, p = _nomatch_only(memo), _nomatch_only(plain)
+    if m is None or p is None or (m == p and memo["errs"] == plain["errs"]):
+        return None
+    # finding D30: a memo hit does not replay failAt, so the memoized record can only LACK what the plain run recorded
+    if m[0] < p[0] or (m[0] == p[0] and m[1] < p[1]):
+        return ("known", "D30", "with Memoize a terminal that failed at the reported offset is missing from the expected set (or the offset is smaller): memoized %r, plain %r" % (memo["errs"], plain["errs"]))
+    if m == p:
+        return None      # same record, differently rendered: the message oracle decides that
+    return ("viol", "Memoize changes the failure report beyond finding D30: memoized %r, plain %r" % (memo["errs"], plain["errs"]))
